@@ -250,28 +250,39 @@ class Problem(  # type: ignore[misc]
 
     def clone(self):
         new_p = Problem(self._name, self._env)
-        UserTypesSetMixin._clone_to(self, new_p)
-        ObjectsSetMixin._clone_to(self, new_p)
-        FluentsSetMixin._clone_to(self, new_p)
-        InitialStateMixin._clone_to(self, new_p)
-        TimeModelMixin._clone_to(self, new_p)
+        Problem._clone_to(self, new_p)
+        return new_p
 
-        new_p._actions = [a.clone() for a in self._actions]
-        new_p._events = [a.clone() for a in self._events]
-        new_p._processes = [a.clone() for a in self._processes]
-        new_p._timed_effects = {
+    def _clone_to(self, other: "Problem"):  # type: ignore[override]
+        """
+        Transfers copies of all the `Problem` attributes into `other`, so that `other`
+        is equal to `self` and the two can then be modified independently.
+        Subclasses call this from their `clone` and then copy their own attributes.
+        """
+        UserTypesSetMixin._clone_to(self, other)
+        ObjectsSetMixin._clone_to(self, other)
+        FluentsSetMixin._clone_to(self, other)
+        InitialStateMixin._clone_to(self, other)
+        TimeModelMixin._clone_to(self, other)
+
+        other._actions = [a.clone() for a in self._actions]
+        other._events = [a.clone() for a in self._events]
+        other._processes = [a.clone() for a in self._processes]
+        other._timed_effects = {
             t: [e.clone() for e in el] for t, el in self._timed_effects.items()
         }
-        new_p._timed_goals = {i: [g for g in gl] for i, gl in self._timed_goals.items()}
-        new_p._goals = self._goals[:]
-        new_p._trajectory_constraints = self._trajectory_constraints[:]
-        new_p._fluents_assigned = {
+        other._timed_goals = {i: [g for g in gl] for i, gl in self._timed_goals.items()}
+        other._goals = self._goals[:]
+        other._trajectory_constraints = self._trajectory_constraints[:]
+        other._fluents_assigned = {
             t: d.copy() for t, d in self._fluents_assigned.items()
+        }
+        other._fluents_inc_dec = {
+            t: fs.copy() for t, fs in self._fluents_inc_dec.items()
         }
 
         # last as it requires actions to be cloned already
-        MetricsMixin._clone_to(self, new_p, new_actions=new_p)
-        return new_p
+        MetricsMixin._clone_to(self, other, new_actions=other)
 
     def has_name(self, name: str) -> bool:
         """
